@@ -31,7 +31,7 @@ package store
 
 //@ func NewDenseStore
 //@   serves C04 C15
-//@   ensures result != nil && fresh(result) && DInv(result) && DEmptyState(result) using ASumEmpty(contents(result.bins), 0, 0)
+//@   ensures result != nil && fresh(result) && footprintFresh(result) && DInv(result) && DEmptyState(result) using ASumEmpty(contents(result.bins), 0, 0)
 
 //@ func DenseStore.IsEmpty
 //@   serves C04 C12
